@@ -254,18 +254,3 @@ Proof.
   destruct (p_wl v =? 0) eqn:E0; [reflexivity|]. cbn. apply withinb_iff, H, Z.eqb_neq, E0.
 Qed.
 
-(* ------------------------------------------------------------------ *)
-(* the decision procedure holds of every round of the model             *)
-(* ------------------------------------------------------------------ *)
-Theorem round_on_code c f order st :
-  wf_pods st -> wf_jobs st -> wf_cfg c -> round_code c st (round_on c f order st) = 0.
-Proof.
-  intros Hwp Hwj Hc. unfold round_code.
-  rewrite (limits_okb_complete _ _ _ (round_on_limits c f order st Hwp Hc)).
-  rewrite (unavail_okb_complete _ _ _ (round_on_unavail c f order st Hwp Hc)).
-  rewrite (round_on_outcomes c f order st Hwj). reflexivity.
-Qed.
-
-Corollary round_code_ok c f st :
-  wf_pods st -> wf_jobs st -> wf_cfg c -> round_code c st (round c f st) = 0.
-Proof. intros. apply round_on_code; assumption. Qed.
